@@ -99,6 +99,8 @@ def fold_tables(ctx, fn, fold):
             node = node.orelse[0]
         elif not node.orelse:
             break
+        elif len(node.orelse) == 1 and isinstance(node.orelse[0], ast.Raise) and node.orelse[0].exc is not None and "FIXError" in unparse(node.orelse[0].exc):
+            break  # `else: raise FIXError(...)`: the unsupported-kind exit written as the chain's last arm
         else:
             raise AnalysisError(f"{FN}: dispatch chain has an else branch that is not a table")
     return tables, table_var, (p_status, p_kind, p_exec, p_msgstatus, p_raise), chain
@@ -184,6 +186,11 @@ def check_resolver(ctx, fn, table_var, params, chain):
         if isinstance(test, ast.UnaryOp) and isinstance(test.op, ast.Not):
             v = eval_test(test.operand, verdict, raise_on_err)
             return None if v is None else (not v)
+        if isinstance(test, ast.BoolOp):
+            vals = [eval_test(v, verdict, raise_on_err) for v in test.values]
+            if isinstance(test.op, ast.And):
+                return False if any(v is False for v in vals) else (None if any(v is None for v in vals) else True)
+            return True if any(v is True for v in vals) else (None if any(v is None for v in vals) else False)
         if isinstance(test, ast.Name):
             if test.id == p_raise:
                 return raise_on_err
@@ -337,7 +344,11 @@ def run(ctx):
     init_empty = any(isinstance(st, ast.Assign) and isinstance(st.targets[0], ast.Name)
                      and st.targets[0].id == table_var and isinstance(st.value, ast.Dict) and not st.value.keys
                      for st in fn.body)
-    ctx.instance("C16.totality", "unsupported-kind", guard_ok and init_empty,
+    tail_ = chain
+    while len(tail_.orelse) == 1 and isinstance(tail_.orelse[0], ast.If):
+        tail_ = tail_.orelse[0]
+    else_raise = len(tail_.orelse) == 1 and isinstance(tail_.orelse[0], ast.Raise) and tail_.orelse[0].exc is not None and "FIXError" in unparse(tail_.orelse[0].exc)
+    ctx.instance("C16.totality", "unsupported-kind", (guard_ok and init_empty) or else_raise,
                  "unsupported message kinds no longer end in the library's order error", loc(fn))
 
     # ---- R1 totality / closedness of every table
